@@ -57,11 +57,20 @@ func transparent(a io.ReadWriter, b io.ReadWriter, setDeadline func(time.Time), 
 	oneWay := func(w io.Writer, r io.Reader, p []byte) bool {
 		setDeadline(time.Now().Add(3 * time.Second))
 		go func() { _, _ = w.Write(p) }()
-		buf := make([]byte, len(p))
-		if _, err := io.ReadFull(r, buf); err != nil {
+		// the read runs on its own goroutine: a wrapper that reads from some other connection than the one the
+		// deadline was set on must make the observation fail, not hang the driver
+		res := make(chan bool, 1)
+		go func() {
+			buf := make([]byte, len(p))
+			_, err := io.ReadFull(r, buf)
+			res <- err == nil && bytes.Equal(buf, p)
+		}()
+		select {
+		case ok := <-res:
+			return ok
+		case <-time.After(4 * time.Second):
 			return false
 		}
-		return bytes.Equal(buf, p)
 	}
 	rev := make([]byte, len(payload))
 	for i := range payload {
@@ -87,6 +96,8 @@ func managerCase(g *gen, dist map[string]int) (string, []map[string]string) {
 	var fails []map[string]string
 	var cid int64
 	forceName := ""
+	pairName := ""
+	var pairSeq []int
 	n := 6 + g.Intn(18)
 	flood := g.Chance(0.02) || managerCases == 2 // the second case of a run and one in ~50 overfill a queue
 	for i := 0; i < n; i++ {
@@ -101,6 +112,21 @@ func managerCase(g *gen, dist map[string]int) (string, []map[string]string) {
 			ops = append(ops, fmt.Sprintf("VmListenerClose %s", hx.HxS(forceName)))
 			obs = append(obs, obsZ(0))
 			r = 50
+		}
+		// one history per run: two compressed, correctly signed connections of an allowed user are queued on one live
+		// listener one after the other and then accepted one after the other (both streams alive at the same time)
+		if managerCases == 4 && i == 2 && len(pairSeq) == 0 && pairName == "" {
+			for _, nme := range hx.SortedKeys(sks) {
+				if len(allows[nme]) > 0 {
+					pairName, pairSeq = nme, []int{50, 50, 95, 95}
+					break
+				}
+			}
+		}
+		pairOp := false
+		if len(pairSeq) > 0 {
+			r, pairSeq = pairSeq[0], pairSeq[1:]
+			pairOp = true
 		}
 		switch {
 		case r < 15:
@@ -125,6 +151,9 @@ func managerCase(g *gen, dist map[string]int) (string, []map[string]string) {
 			if forceName != "" {
 				name = forceName
 			}
+			if pairOp {
+				name = pairName
+			}
 			ts := g.ts()
 			ht.addTs(ts)
 			realSk, live := sks[name]
@@ -134,7 +163,14 @@ func managerCase(g *gen, dist map[string]int) (string, []map[string]string) {
 			sign, kind := g.sign(realSk, ts, 0.7)
 			user := g.userFor(allows[name])
 			ue, uc := g.Chance(0.5), g.Chance(0.5)
+			if pairOp {
+				uc = true
+			}
 			reps := 1
+			if pairOp && live && len(allows[name]) > 0 {
+				sign, kind = util.GetAuthKey(realSk, ts), "right"
+				user = allows[name][0]
+			}
 			if forceName != "" && name == forceName && live && len(allows[name]) > 0 {
 				sign, kind = util.GetAuthKey(realSk, ts), "right"
 				user = allows[name][0]
@@ -195,6 +231,9 @@ func managerCase(g *gen, dist map[string]int) (string, []map[string]string) {
 			}
 		default:
 			name := g.Pick(namePool)
+			if pairOp {
+				name = pairName
+			}
 			if _, live := sks[name]; !live {
 				continue
 			}
